@@ -57,6 +57,9 @@ pub struct Compiler<'a> {
     upvalues: Vec<Upvalues>,
     scope_depth: Vec<i32>,
     current_index: CardIndex,
+    /// handle of the function being compiled: unique in the whole program, unlike the function
+    /// index of `current_index`, which counts inside one module
+    current_function_handle: Handle,
     function_id: usize,
 }
 
@@ -119,9 +122,16 @@ impl<'a> Compiler<'a> {
             upvalues: vec![Default::default()],
             scope_depth: vec![0],
             current_index: CardIndex::default(),
+            current_function_handle: Handle::default(),
             current_imports: Default::default(),
             function_id: 0,
         }
+    }
+
+    /// Handle of the current card: the position inside the function combined with the handle
+    /// of the function, so that equal positions in different modules get different handles
+    fn card_handle(&self) -> Handle {
+        self.current_function_handle + self.current_index.sub_handle()
     }
 
     fn trace(&self) -> Trace {
@@ -194,6 +204,7 @@ impl<'a> Compiler<'a> {
                 Err(_) => return Err(self.error(CompilationErrorPayload::TooManyCards(il))),
             };
             self.current_index = CardIndex::new(il, 0);
+            self.current_function_handle = main_function.handle;
             self.scope_begin();
             self.process_function(main_function)?;
             self.current_index = CardIndex {
@@ -213,6 +224,7 @@ impl<'a> Compiler<'a> {
         for function in functions {
             let il = function.function_index;
             self.current_index = CardIndex::function(il);
+            self.current_function_handle = function.handle;
             let nodeid_handle = function.handle;
             let handle = u32::try_from(self.program.bytecode.len())
                 .expect("bytecode length to fit into 32 bits");
@@ -524,12 +536,13 @@ impl<'a> Compiler<'a> {
     fn process_card(&mut self, card: &'a Card) -> CompilationResult<()> {
         let card_byte_index = u32::try_from(self.program.bytecode.len())
             .expect("Expected bytecode length to fit into 32 bits");
-        let nodeid_hash = self.current_index.as_handle();
+        let nodeid_hash = self.card_handle();
+        // function and closure labels share this table and must not be displaced by a card
         self.program
             .labels
             .0
-            .insert(nodeid_hash, Label::new(card_byte_index))
-            .unwrap();
+            .entry(nodeid_hash)
+            .or_insert_with(|| Label::new(card_byte_index));
 
         match &card.body {
             CardBody::CompositeCard(comp) => {
@@ -796,8 +809,7 @@ impl<'a> Compiler<'a> {
 
                 self.compile_begin();
                 const CLOSURE_MASK: u64 = 0xEFEFEFEF;
-                let function_handle =
-                    self.current_index.as_handle() + Handle::from_u64(CLOSURE_MASK);
+                let function_handle = self.card_handle() + Handle::from_u64(CLOSURE_MASK);
                 let arity = embedded_function.arguments.len() as u32;
                 let handle = u32::try_from(self.program.bytecode.len())
                     .expect("bytecode length to fit into 32 bits");
